@@ -20,7 +20,7 @@ Record tcase := mkTls {
   t_scheme : option string;
   t_host : option string;          (* uri.host(): IPv6 literals bracketed *)
   t_hk : hostkind;                 (* O6 *)
-  t_covered : bool;                (* the server's "good" certificate covers this name (O6) *)
+  t_covered : bool;                (* the certificate the server presents covers this name (O6) *)
   t_cert : cert;
   t_salpn : alpnopt;               (* server ALPN list: none | h2,http/1.1 | http/1.1 *)
   t_calpn : alpnopt;               (* client ALPN list: none | h2,http/1.1 *)
@@ -49,7 +49,10 @@ Definition strip_brackets (s : string) : string :=
   strip_trailing "]"%char s1.
 
 Definition handshake_ok (c : tcase) : bool :=
-  match t_fault c, t_cert c with FNone, CGood => t_covered c | _, _ => false end.
+  match t_fault c, t_cert c with
+  | FNone, CGood | FNone, CWrongName => t_covered c    (* both chain to the trusted root; they differ in their names *)
+  | _, _ => false
+  end.
 
 Definition negotiated (c : tcase) : alpnopt :=
   match t_calpn c, t_salpn c with
